@@ -47,7 +47,8 @@ pub const IT_INTO_ITER: u8 = 4;
 pub const IT_INTO_KEYS: u8 = 5;
 pub const IT_INTO_VALUES: u8 = 6;
 /// what is done with the iterator after the next/next_back calls: nothing, or one of the provided Iterator methods
-pub const FIN_NAMES: [&str; 9] = ["-", "last", "count", "nth1", "nth_back1", "size_hint", "fold", "rev_fold", "consumer_panics"];
+pub const FIN_NAMES: [&str; 16] = ["-", "last", "count", "nth1", "nth_back1", "size_hint", "fold", "rev_fold", "consumer_panics", "for_each", "find_none", "rfind_none", "collect", "position_none", "all_true", "any_false"];
+pub const N_FIN: u64 = 16;
 pub const CONSUMER_PANIC: &str = "consumer-panic (the code using the iterator panics; the iterator is dropped during unwinding)";
 pub const IT_NAMES: [&str; 7] = ["iter", "keys", "values", "drain", "into_iter", "into_keys", "into_values"];
 
@@ -283,6 +284,18 @@ macro_rules! drive {
             // (a runaway traversal must not eat the machine: far more items than any cache here holds is a failure in itself)
             6 => { $out.fin_ran = true; let mut acc = Vec::new(); it.fold((), |_, $x| { let y = $conv; acc.push(y); if acc.len() > 200_000 { panic!("runaway iteration: fold yielded more than 200000 items"); } }); $out.fin_items = acc; }
             7 => { $out.fin_ran = true; let mut acc = Vec::new(); it.rev().fold((), |_, $x| { let y = $conv; acc.push(y); if acc.len() > 200_000 { panic!("runaway iteration: rev().fold yielded more than 200000 items"); } }); $out.fin_items = acc; }
+            9 => { $out.fin_ran = true; let mut acc = Vec::new(); it.for_each(|$x| { let y = $conv; acc.push(y); if acc.len() > 200_000 { panic!("runaway iteration: for_each yielded more than 200000 items"); } }); $out.fin_items = acc; }
+            // searching adaptors that never find: they must look at every remaining item once and leave the iterator exhausted
+            10 | 11 | 13 | 14 | 15 => {
+                $out.fin_ran = true;
+                let mut n = 0usize;
+                let mut tick = || { n += 1; if n > 200_000 { panic!("runaway iteration: a searching adaptor looked at more than 200000 items"); } };
+                let found = match $fin { 10 => it.find(|_| { tick(); false }).is_some(), 11 => it.rfind(|_| { tick(); false }).is_some(), 13 => it.position(|_| { tick(); false }).is_some(), 14 => !it.all(|_| { tick(); true }), _ => it.any(|_| { tick(); false }) };
+                $out.fin_count = n;
+                // found something although the predicate never accepts, or yields again afterwards: reported through the hint slot
+                $out.fin_hint = (found as usize, Some(it.next().is_some() as usize + it.next_back().is_some() as usize));
+            }
+            12 => { $out.fin_ran = true; let all: Vec<_> = it.collect(); if all.len() > 200_000 { panic!("runaway iteration: collect yielded more than 200000 items"); } for $x in all { let y = $conv; $out.fin_items.push(y); } }
             // the consumer panics while it holds the iterator: the iterator is dropped during unwinding and must clean up as usual
             8 => { $out.fin_ran = true; if !$forget { let _keep = &mut it; panic!("{}", CONSUMER_PANIC); } else { std::mem::forget(it); } }
             _ => { if $forget { std::mem::forget(it); } }
